@@ -14,6 +14,9 @@ TreesOver(S, n, B) == {[files |-> s, btasks |-> b] : s \in SeqsOf(S, n), b \in B
 EvRecs == {r \in FileRecs : r.ev /\ r.dir # 1}
 SmallRecs == {r \in FileRecs : r.dir \in {0, 2, 3} /\ (r.ev \/ (r.tk = "go" /\ ~r.us /\ r.dir = 2))}
 
+\* reduced description set for the history-heavy runs
+HistRecs == {r \in FileRecs : r.dir \in {0, 2, 3} /\ (r.ev \/ (r.tk = "go" /\ ~r.us)) /\ (r.tk = "stop" => ~r.us)}
+TreesH == TreesOver(HistRecs, 2, {<<>>, <<"go">>})
 Trees2 == TreesOver(FileRecs, 2, {<<>>, <<"go">>})
 Trees1 == TreesOver(FileRecs, 1, {<<>>, <<"go">>})
 Trees3 == TreesOver(SmallRecs, 3, {<<>>, <<"go">>})
